@@ -2,6 +2,8 @@
 #pragma once
 #include <nlohmann/json.hpp>
 #include <nix.hpp>
+#include <nix/util/dataAccess.hpp>
+#include <nix/util/util.hpp>
 #include <hdf5.h>
 #include <string>
 #include <vector>
@@ -18,7 +20,7 @@ struct Ctx {
     std::string work;      // private scratch directory of this replayer process
     long seed = 0;         // VERIF_SEED: selects concretisation dictionaries
     std::string dict;      // optional dictionary override
-    json opts;             // free-form options from the orchestrator
+    json opts = json::object();   // free-form options from the orchestrator
     std::string path(const std::string &n = "f.nix") const { return work + "/" + n; }
 };
 
